@@ -335,48 +335,6 @@ Section HashModel.
                      end
          end.
 
-  Definition step (s : hset) (o : op) : hset * out :=
-    match o with
-    | OInsert k v bud =>
-      match hfind s k with
-      | Some _ => (s, RBool false)
-      | None => match hadd s (k, v) bud with Some s' => (s', RBool true) | None => (s, RExn) end
-      end
-    | OFind k => (s, ROpt (match hfind s k with Some (_, _, _, v) => Some v | None => None end))
-    | ORemove k =>
-      match hfind s k with
-      | Some (gi, idx, pos, _) => (mkH (upd_gen (gens s) gi (fun t => tremove t idx pos)) (count s - 1) (capacity s), RBool true)
-      | None => (s, RBool false)
-      end
-    | OSetVal k v =>
-      match hfind s k with
-      | Some (gi, idx, pos, _) => (mkH (upd_gen (gens s) gi (fun t => tsetval t idx pos v)) (count s) (capacity s), RBool true)
-      | None => (s, RBool false)
-      end
-    | OReserve n bud => match hreserve s n bud with Some s' => (s', RUnit) | None => (s, RExn) end
-    | OClear shrink => (hclear s shrink, RUnit)
-    | OTraverse => (s, RList (if count s =? 0 then [] else traverse s))
-    | OCount => (s, RNum (count s))
-    | ORemoveIf m r => match hremove_if s (fun kv => Z.eqb (fst kv mod m) r) with (s', c) => (s', RNum c) end
-    | OCopy => match hcopy s with Some s' => (s', RUnit) | None => (s, RExn) end
-    | OAddAt k v =>
-      match hfind s k with
-      | Some _ => (s, RBool false)
-      | None => match hadd s (k, v) None with Some s' => (s', RBool true) | None => (s, RExn) end
-      end
-    | OInsertNoMem k v =>
-      match hfind s k with
-      | Some _ => (s, RBool false)
-      | None => match hadd_nomem s (k, v) with Some s' => (s', RBool true) | None => (s, RExn) end
-      end
-    end.
-
-  Fixpoint run (s : hset) (os : list op) : hset * list out :=
-    match os with
-    | [] => (s, [])
-    | o :: r => match step s o with (s1, x) => match run s1 r with (s2, xs) => (s2, x :: xs) end end
-    end.
-
   (* ---- HashSetConstIterator as a machine (HashSet.h:349-383) ----
      state = (generation index = which mBuckets of the chain, bucket index, position of bucketIter inside Bounds); None = end.
      pvInc : if (bucketIter != bounds.begin) --bucketIter; else pvMove();
@@ -442,6 +400,62 @@ Section HashModel.
              end
     end.
 
+  (* Remove(filter) as the code's loop:  iter = GetBegin(); while (iter) { if (filter(item)) iter = Remove(iter); else ++iter; }
+     c counts the Remove(iter) calls (the result initCount - GetCount()) *)
+  Fixpoint rf_loop (fuel : nat) (p : item -> bool) (s : hset) (it : iter) (c : Z) : hset * Z :=
+    match fuel with
+    | O => (s, c)
+    | S f => match it_get s it with
+             | None => (s, c)
+             | Some x => if p x then match it_remove s it with (s', it') => rf_loop f p s' it' (c + 1) end
+                         else rf_loop f p s (it_next s it) c
+             end
+    end.
+  Definition hremove_if_m (s : hset) (p : item -> bool) : hset * Z :=
+    rf_loop (length (traverse s)) p s (it_begin s) 0.
+
+  Definition step (s : hset) (o : op) : hset * out :=
+    match o with
+    | OInsert k v bud =>
+      match hfind s k with
+      | Some _ => (s, RBool false)
+      | None => match hadd s (k, v) bud with Some s' => (s', RBool true) | None => (s, RExn) end
+      end
+    | OFind k => (s, ROpt (match hfind s k with Some (_, _, _, v) => Some v | None => None end))
+    | ORemove k =>
+      match hfind s k with
+      | Some (gi, idx, pos, _) => (mkH (upd_gen (gens s) gi (fun t => tremove t idx pos)) (count s - 1) (capacity s), RBool true)
+      | None => (s, RBool false)
+      end
+    | OSetVal k v =>
+      match hfind s k with
+      | Some (gi, idx, pos, _) => (mkH (upd_gen (gens s) gi (fun t => tsetval t idx pos v)) (count s) (capacity s), RBool true)
+      | None => (s, RBool false)
+      end
+    | OReserve n bud => match hreserve s n bud with Some s' => (s', RUnit) | None => (s, RExn) end
+    | OClear shrink => (hclear s shrink, RUnit)
+    | OTraverse => (s, RList (if count s =? 0 then [] else traverse s))
+    | OCount => (s, RNum (count s))
+    | ORemoveIf m r => match hremove_if_m s (fun kv => Z.eqb (fst kv mod m) r) with (s', c) => (s', RNum c) end
+    | OCopy => match hcopy s with Some s' => (s', RUnit) | None => (s, RExn) end
+    | OAddAt k v =>
+      match hfind s k with
+      | Some _ => (s, RBool false)
+      | None => match hadd s (k, v) None with Some s' => (s', RBool true) | None => (s, RExn) end
+      end
+    | OInsertNoMem k v =>
+      match hfind s k with
+      | Some _ => (s, RBool false)
+      | None => match hadd_nomem s (k, v) with Some s' => (s', RBool true) | None => (s, RExn) end
+      end
+    end.
+
+  Fixpoint run (s : hset) (os : list op) : hset * list out :=
+    match os with
+    | [] => (s, [])
+    | o :: r => match step s o with (s1, x) => match run s1 r with (s2, xs) => (s2, x :: xs) end end
+    end.
+
   (* ---- two containers + an extracted-item holder ---- *)
   Record world : Type := mkW { wa : hset; wb : hset; wext : option item }.
   Definition winit : world := mkW hinit hinit None.
@@ -460,6 +474,24 @@ Section HashModel.
                 | Some b' => merge_loop r (fst (step a (ORemove k))) b'
                 end
       end
+    end.
+
+  (* the same as the code's loop: iter = GetBegin(); while (iter) { if (!dst.InsertCrt(key, extract(iter)).inserted) ++iter; }
+     where the creator's extraction is iter = pvExtract(iter, ...) = Remove(iter) *)
+  Fixpoint merge_m (fuel : nat) (a b : hset) (it : iter) : hset * hset * bool :=
+    match fuel with
+    | O => (a, b, true)
+    | S f => match it_get a it with
+             | None => (a, b, true)
+             | Some (k, v) =>
+               match hfind b k with
+               | Some _ => merge_m f a b (it_next a it)
+               | None => match hadd b (k, v) None with
+                         | None => (a, b, false)
+                         | Some b' => match it_remove a it with (a', it') => merge_m f a' b' it' end
+                         end
+               end
+             end
     end.
 
   Definition wstep (w : world) (o : wop) : world * out :=
@@ -486,7 +518,7 @@ Section HashModel.
     | WSwap => (mkW (wb w) (wa w) (wext w), RUnit)
     | WMoveAB => (mkW hinit (wa w) (wext w), RUnit)
     | WMergeAB =>
-      match merge_loop (if count (wa w) =? 0 then [] else traverse (wa w)) (wa w) (wb w) with
+      match merge_m (length (traverse (wa w))) (wa w) (wb w) (it_begin (wa w)) with
       | (a', b', ok) => (mkW a' b' (wext w), if ok then RUnit else RExn)
       end
     end.
